@@ -139,4 +139,41 @@ def GoFields.beqNoTags : GoFields → GoFields → Bool
   | _, _ => false
 end
 
+/-! ## package names referred to -/
+
+mutual
+def GoTy.quals : GoTy → List Bytes
+  | .name _ => []
+  | .qual p _ => [p]
+  | .ptr t => t.quals
+  | .slice t => t.quals
+  | .map t => t.quals
+  | .struct fs => fs.quals
+  | .func p r => p.quals ++ r.quals
+def GoFields.quals : GoFields → List Bytes
+  | .nil => []
+  | .cons _ t _ r => t.quals ++ r.quals
+end
+
+def Expr.quals : Expr → List Bytes
+  | .ident _ => []
+  | .sel _ _ => []
+  | .conv t _ e => t.quals ++ e.quals
+
+mutual
+def Stmt.quals : Stmt → List Bytes
+  | .var _ t => t.quals
+  | .define _ => []
+  | .set l r => l.quals ++ r.quals
+  | .args _ as => (as.map Expr.quals).flatten
+  | .use _ _ => []
+  | .strArg _ _ _ => []
+  | .retString _ => []
+  | .closure p r b => p.quals ++ r.quals ++ Stmt.qualsList b
+  | .caseBlock _ b => Stmt.qualsList b
+def Stmt.qualsList : List Stmt → List Bytes
+  | [] => []
+  | s :: r => s.quals ++ Stmt.qualsList r
+end
+
 end Varlink.Gen
